@@ -7,6 +7,7 @@ Exit 2: harness error / vacuous run (never a VIOLATION line).
 import argparse
 import importlib
 import asyncio
+import copy
 import json
 import multiprocessing
 import os
@@ -116,7 +117,9 @@ def _guarded_check(mod, case, acc, known_keys):
     try:
         try:
             _seed_global_random(case)
-            labels = mod.check_case(case)
+            # (the code under test gets a private copy: a case that it
+            # modifies in place must still replay)
+            labels = mod.check_case(copy.deepcopy(case))
         except Violation:
             raise
         except core.Abort as a:
